@@ -1,5 +1,6 @@
 SPECIFICATION MCSpec
 CONSTANTS
+  KeepHist = TRUE
   Forms = {"fut", "await", "sticky", "on"}
   Ns = {1, 2}
   OutSets = {"v", "x", "vv", "vx"}
